@@ -265,3 +265,29 @@ Print Assumptions C01_ber_roundtrip_reencode.
 Example C01_der_reencode_hypotheses_inhabited : ltac:(let T := type of Asn1V.Ber.DerReencode.ex_reencode_hypotheses in exact T).
 Proof. exact Asn1V.Ber.DerReencode.ex_reencode_hypotheses. Qed.
 Print Assumptions C01_der_reencode_hypotheses_inhabited.
+
+(** ------------------------------------------------------------------
+    REAL (Ber/Real.v: ber.encode_real / decode_real on exact dyadic reals, no
+    hardware floats; the contents octets are shared by ber, der, per, uper and
+    the non-IEEE branch of oer): EVERY double except -0.0 is encodable and
+    decodes back to itself; -0.0 comes back as +0.0 (open finding
+    real-minus-zero); for every octet string the decoder's outcome is a value,
+    the library's decode error, or one of three named foreign exceptions with
+    their exact input regions ([real_decode_regions]). *)
+From Asn1V Require Ber.Real Ber.RealProofs.
+
+Theorem C01_real_roundtrip : ltac:(let T := type of Asn1V.Ber.RealProofs.real_roundtrip in exact T).
+Proof. exact Asn1V.Ber.RealProofs.real_roundtrip. Qed.
+Print Assumptions C01_real_roundtrip.
+
+Theorem C01_real_encode_total : ltac:(let T := type of Asn1V.Ber.RealProofs.real_encode_total in exact T).
+Proof. exact Asn1V.Ber.RealProofs.real_encode_total. Qed.
+Print Assumptions C01_real_encode_total.
+
+Theorem C01_real_minus_zero_refuted : ltac:(let T := type of Asn1V.Ber.RealProofs.real_minus_zero_refuted in exact T).
+Proof. exact Asn1V.Ber.RealProofs.real_minus_zero_refuted. Qed.
+Print Assumptions C01_real_minus_zero_refuted.
+
+Theorem C01_real_decode_total_class : ltac:(let T := type of Asn1V.Ber.RealProofs.real_decode_total_class in exact T).
+Proof. exact Asn1V.Ber.RealProofs.real_decode_total_class. Qed.
+Print Assumptions C01_real_decode_total_class.
